@@ -49,6 +49,36 @@ struct ApiPortable
     static constexpr bool host_iter_range_ctor = false, erase_range = false;
 };
 
+// The *_big targets: resize / reserve / count construction jump to sizes around 256, 512 and up to 1100, so that
+// capacities and element counts leave the range of one-byte counters and several doublings happen in one history.
+inline bool &big_mode()
+{
+    static bool b = false;
+    return b;
+}
+struct BigMode
+{
+    BigMode() { big_mode() = true; }
+    ~BigMode() { big_mode() = false; }
+};
+inline size_t big_size(Src &s, bool huge_ok = false)
+{
+    // trivially constructible elements only: counts around 65536 (two-byte counters)
+    if (huge_ok && s.below(40) == 0)
+        return (size_t)s.range(65530, 65545);
+    switch (s.weighted({3, 2, 2, 1}))
+    {
+    case 0:
+        return (size_t)s.range(250, 262);
+    case 1:
+        return (size_t)s.range(0, 40);
+    case 2:
+        return (size_t)s.range(41, 600);
+    default:
+        return (size_t)s.range(1000, 1100);
+    }
+}
+
 template <class V, class T, class Api = ApiPrimary> struct VecRun
 {
     static constexpr int NS = 3;
@@ -225,7 +255,7 @@ template <class V, class T, class Api = ApiPrimary> struct VecRun
             break;
         case 9:
         {
-            size_t k = s.below(n + 9);
+            size_t k = big_mode() ? big_size(s, std::is_same<T, int>::value) : s.below(n + 9);
             snprintf(name, sizeof name, "v%d.resize(%zu)", i, k);
             c.log("%s ", name);
             v.resize(k);
@@ -234,7 +264,7 @@ template <class V, class T, class Api = ApiPrimary> struct VecRun
         }
         case 10:
         {
-            size_t k = s.below(40);
+            size_t k = big_mode() ? big_size(s, std::is_same<T, int>::value) : s.below(40);
             snprintf(name, sizeof name, "v%d.reserve(%zu)", i, k);
             c.log("%s ", name);
             v.reserve(k);
@@ -360,7 +390,7 @@ template <class V, class T, class Api = ApiPrimary> struct VecRun
         }
         case 19:
         {
-            size_t k = s.below(6);
+            size_t k = big_mode() ? big_size(s, std::is_same<T, int>::value) : s.below(6);
             snprintf(name, sizeof name, "v%d = V(%zu)", i, k);
             c.log("%s ", name);
             delete slot[i];
